@@ -270,7 +270,8 @@ def run(prop, tier):
             known_hit.append(v)
         else:
             new_viol.append(v)
-    vdir = os.path.join(VERIF, "evidence", "violations")
+    EVROOT = os.environ.get("VERIF_EVIDENCE_DIR") or os.path.join(VERIF, "evidence")
+    vdir = os.path.join(EVROOT, "violations")
     os.makedirs(vdir, exist_ok=True)
     # remove stale replay files of this property
     for fn in os.listdir(vdir):
@@ -325,8 +326,8 @@ def run(prop, tier):
         "wall_s": round(time.time() - t0, 2),
         "violations": len(new_viol),
     }
-    os.makedirs(os.path.join(VERIF, "evidence"), exist_ok=True)
-    evp = os.path.join(VERIF, "evidence", "%s.json" % prop)
+    os.makedirs(EVROOT, exist_ok=True)
+    evp = os.path.join(EVROOT, "%s.json" % prop)
     tmp = evp + ".tmp.%d" % os.getpid()
     with open(tmp, "w") as fh:
         json.dump(ev, fh, indent=1)
